@@ -588,6 +588,7 @@ def main(run):
                 discarded += 1
     for idx, v in timed_mism[40:]:
         confirmed.append((idx, v, obs[idx]))      # too many to re-run: reported as they are
+    confirmed.sort(key=lambda t: t[1] != 2)       # failures of the property itself (concrete inputs) first
     for idx, v, o in confirmed[:5]:
         c = cases[idx]
         p = c["_p"]
